@@ -181,6 +181,15 @@ RBRun(p, xs, b, s, t) ==
           ELSE RBRun(p, Tail(xs), b, IF p.elseOp = "+" THEN s + 1 ELSE s - 1, t + v)
 EvalRangeBranch(p, a, b) == Val(RBRun(p, Tab(Clamp(a)), b, 0, 1))
 
+\* "sliceidx":  xs := tab(a); s := 0; for i := 0; i < len(xs); i++ { s = s*2 + xs[IDX] }; return s + b
+\* (IDX: i | len(xs)-1-i | 0 — an index edit changes which elements are read)
+RECURSIVE SIRun(_, _, _, _)
+SIRun(p, xs, i, s) ==
+  IF i > Len(xs) THEN s
+  ELSE LET k == IF p.idx = "i" THEN i ELSE IF p.idx = "rev" THEN Len(xs) + 1 - i ELSE 1
+       IN SIRun(p, xs, i + 1, s * 2 + xs[k])
+EvalSliceIdx(p, a, b) == LET xs == Tab(Clamp(a)) IN Val(SIRun(p, xs, 1, 0) + b)
+
 \* "strbranch":  q := pick(a)   (one of "", "ab", "abc", "abd", "b": index = clamp(a), in lexicographic order)
 \*               if q CMP LIT { return len(q) + b } else { return E }
 StrLen(k) == CASE k = 0 -> 0 [] k = 1 -> 2 [] k = 2 -> 3 [] k = 3 -> 3 [] OTHER -> 1
@@ -273,7 +282,7 @@ Eval(p, a, b) ==
     [] p.tpl = "extract" -> EvalExtract(p, a, b)
     [] p.tpl = "ubig" -> EvalUBig(p, a, b) [] p.tpl = "consttype" -> EvalConstType(p, a, b)
     [] p.tpl = "sibloops" -> EvalSibLoops(p, a, b) [] p.tpl = "dectree" -> EvalDecTree(p, a, b)
-    [] p.tpl = "labeled" -> EvalLabeled(p, a, b) [] p.tpl = "closure2" -> EvalClosure2(p, a, b)
+    [] p.tpl = "labeled" -> EvalLabeled(p, a, b) [] p.tpl = "closure2" -> EvalClosure2(p, a, b) [] p.tpl = "sliceidx" -> EvalSliceIdx(p, a, b)
     [] p.tpl = "hoistarms" -> EvalHoistArms(p, a, b) [] p.tpl = "bigloop" -> EvalBigLoop(p, a, b)
     [] p.tpl = "selectone" -> EvalSelectOne(p, a, b) [] p.tpl = "ivwidth" -> EvalIVWidth(p, a, b)
     [] p.tpl = "orand" -> EvalOrAnd(p, a, b) [] p.tpl = "switch2" -> EvalSwitch2(p, a, b) [] p.tpl = "loop" -> EvalLoop(p, a, b)
@@ -301,6 +310,7 @@ HoistArms == [tpl : {"hoistarms"}, cmp : {">=", ">", "<", "<="}, pres : {Plain}]
 BigLoop == [tpl : {"bigloop"}, ks : {100, 200}, kt : {32, 64}, pres : {Plain}]
 SelectOne == [tpl : {"selectone"}, first : {"ca", "cb"}, pres : {Plain}]
 IVWidth == [tpl : {"ivwidth"}, ty : {"uint8", "uint16"}, pres : {Plain}]
+SliceIdx == [tpl : {"sliceidx"}, idx : {"i", "rev", "zero"}, pres : {Plain}]
 Closure2 == [tpl : {"closure2"}, op : {"+", "-", "%"}, op2 : {"+", "-", "*"}, pres : {Plain}]
 LoopBranch == [tpl : {"loopbranch"}, cmp : Cmps, rhs : {"b", "k"}, thenOp : {"+", "-"}, elseOp : {"+", "-"}, pres : {Plain}]
 RangeBranch == [tpl : {"rangebranch"}, cmp : Cmps, rhs : {"b", "k"}, thenOp : {"+", "-"}, elseOp : {"+", "-"}, pres : {Plain}]
@@ -333,6 +343,7 @@ Alt(p, h) ==
     [] h = "k1" -> {1000, 2000, 17, -1000} [] h = "k" -> {"max", "max7", "hi16", "mid"}
     [] h \in {"c2", "c3"} -> {"b>0", "a>b"} [] h \in {"l1", "l2", "l3", "l4"} -> Leaves
     [] h = "ty" -> IF p.tpl = "ivwidth" THEN {"uint8", "uint16"} ELSE {"int32", "int64", "uint8"}
+    [] h = "idx" -> {"i", "rev", "zero"}
     [] h = "ks" -> {100, 200} [] h = "kt" -> {32, 64} [] h = "first" -> {"ca", "cb"} [] h = "ret" -> {"i-j", "j-i", "i+j", "i*2+j"}
     [] h = "k2" -> {100000, 50000} [] h = "small" -> {3, 5}
     [] h = "start" -> {0, 1} [] h = "step" -> {1, 2} [] h = "d" -> {1, 2} [] h = "c0" -> {0, 1}
